@@ -413,12 +413,14 @@ type tlsConfigSettingsExt struct {
 // handleTLSStatus is the handler for the GET /control/tls/status HTTP API.
 func (m *tlsManager) handleTLSStatus(w http.ResponseWriter, r *http.Request) {
 	var tlsConf *tlsConfigSettings
+	var status tlsConfigStatus
 	var servePlainDNS bool
 	func() {
 		m.mu.Lock()
 		defer m.mu.Unlock()
 
 		tlsConf = m.conf.clone()
+		status = *m.status
 		servePlainDNS = m.servePlainDNS
 	}()
 
@@ -427,7 +429,7 @@ func (m *tlsManager) handleTLSStatus(w http.ResponseWriter, r *http.Request) {
 			tlsConfigSettings: *tlsConf,
 			ServePlainDNS:     aghalg.BoolToNullBool(servePlainDNS),
 		},
-		tlsConfigStatus: m.status,
+		tlsConfigStatus: &status,
 	}
 
 	marshalTLS(w, r, data)
